@@ -83,7 +83,10 @@ func runC01Case(c *Ctx, n, t int, rep uint64) {
 	if viaCLI {
 		wit["operator_channel"] = "dc4bc_cli binary"
 	}
-	ce, err := NewCeremonyWith(world.Options{N: n, T: t, Seed: seed, ViaHTTP: viaHTTP, ViaCLI: viaCLI}, world.RandomPolicy)
+	// every third ceremony: participants with unusual (legal) user names
+	odd := rep%3 == 2
+	wit["odd_user_names"] = odd
+	ce, err := NewCeremonyWith(world.Options{N: n, T: t, Seed: seed, ViaHTTP: viaHTTP, ViaCLI: viaCLI, OddNames: odd}, world.RandomPolicy)
 	if err != nil {
 		c.Inconclusive("ceremony n=%d t=%d seed=%d: %v", n, t, seed, err)
 		return
